@@ -26,11 +26,188 @@ def perturb(g, mk, t):
                 m2["spot"][p][j] = max(F(1, 8), min(mk["spot"][p]) - g.dy(F(1, 8), F(3, 8), 3))   # new minimum
             elif r < 0.9:
                 m2["spot"][p][j] = g.dy(F(1, 2), 4, 3)
-            if mk["primary"] in ("HestonStock", "LocalVolatilityStock") and g.chance(0.7):
+            if mk["primary"] in ("HestonStock", "LocalVolatilityStock", "RoughBergomiStock", "custom_vol_var") and g.chance(0.7):
                 v = g.choice([F(1, 4), F(1, 2), F(3, 4), F(1)])
                 m2["vol"][p][j] = v
                 m2["var"][p][j] = v * v
     return m2
+
+
+# ---- every built-in feature x every underlier type x every derivative type ---------------------------------------------------------
+# The shared builder knows four stock models and the four options.  The library ships more: KouJumpStock and RoughBergomiStock, the
+# rates CIRRate / VasicekRate (a `spot` series only: they have NO volatility / variance), user-defined primaries (BasePrimary
+# subclasses registering whatever buffers they like) and the derivatives without moneyness (EuropeanForwardStartOption, VarianceSwap).
+# A feature whose defining quantity does not exist for the pair (volatility of a rate, moneyness of a variance swap) raises on the
+# unchanged code: that is accepted (no hedge, nothing can anticipate); whenever a hedge IS produced it must be non-anticipative.
+X_UNDERLIERS = ["BrownianStock", "HestonStock", "MertonJumpStock", "KouJumpStock", "LocalVolatilityStock", "RoughBergomiStock",
+                "CIRRate", "VasicekRate", "custom_spot_only", "custom_vol_var"]
+X_DERIVATIVES = OPTION_TYPES + ["EuropeanForwardStartOption", "VarianceSwap"]
+X_VAR_BUFFER = ("HestonStock", "RoughBergomiStock", "custom_vol_var")
+X_VOL_BUFFER = ("LocalVolatilityStock", "custom_vol_var")
+NZ_W = [w for w in DY_W if w != 0]
+
+
+def gen_market_x(g, ukind):
+    if ukind in ("HestonStock", "RoughBergomiStock", "custom_vol_var"):
+        mk = gen_market(g, primary="HestonStock")
+    elif ukind == "LocalVolatilityStock":
+        mk = gen_market(g, primary=ukind)
+    else:
+        mk = gen_market(g, primary="BrownianStock")
+    mk["primary"] = ukind
+    if ukind == "custom_vol_var":     # a user-defined primary: its `variance` and `volatility` buffers are unrelated series
+        mk["vol"] = [[g.choice([F(1, 4), F(1, 2), F(3, 4), F(2)]) for _ in r] for r in mk["vol"]]
+        mk["var"] = [[g.choice([F(1, 16), F(1, 4), F(1, 2), F(3)]) for _ in r] for r in mk["var"]]
+    mk["option"] = g.weighted([(k, 2) for k in OPTION_TYPES] + [("EuropeanForwardStartOption", 1), ("VarianceSwap", 1)])
+    return mk
+
+
+def inject_x(torch, u, mk):
+    u.register_buffer("spot", tens(torch, mk["spot"]))
+    if mk["primary"] in X_VAR_BUFFER:
+        u.register_buffer("variance", tens(torch, mk["var"]))
+    if mk["primary"] in X_VOL_BUFFER:
+        u.register_buffer("volatility", tens(torch, mk["vol"]))
+
+
+def build_x(torch, mk):
+    import pfhedge.instruments as I
+    p, T, dt = mk["primary"], mk["T"], float(mk["dt"])
+    kw = dict(cost=float(mk["cost"]), dt=dt, dtype=torch.float64)
+    if p in ("BrownianStock", "MertonJumpStock", "KouJumpStock"):
+        u = getattr(I, p)(sigma=float(mk["sigma"]), **kw)
+    elif p == "LocalVolatilityStock":
+        u = I.LocalVolatilityStock(lambda t, s: s, **kw)
+    elif p in ("HestonStock", "RoughBergomiStock", "CIRRate", "VasicekRate"):
+        u = getattr(I, p)(**kw)
+    else:
+        class UserPrimary(I.BasePrimary):
+            def __init__(self, cost, dt, dtype):
+                super().__init__()
+                self.cost, self.dt = cost, dt
+                self.to(dtype=dtype)
+
+            def simulate(self, n_paths=1, time_horizon=0.0, init_state=None):
+                raise NotImplementedError
+        u = UserPrimary(**kw)
+    inject_x(torch, u, mk)
+    k = mk["option"]
+    if k in OPTION_TYPES:
+        d = getattr(I, k)(u, call=mk["call"], strike=float(mk["strike"]), maturity=(T - 1) * dt)
+    elif k == "EuropeanForwardStartOption":
+        d = I.EuropeanForwardStartOption(u, strike=float(mk["strike"]), maturity=(T - 1) * dt, start=((T - 1) // 2) * dt)
+    else:
+        d = I.VarianceSwap(u, strike=float(mk["strike"]), maturity=(T - 1) * dt)
+    a, b = mk["listed"]
+    d.list(lambda dd, a=float(a), b=float(b): dd.ul().spot * a + b, cost=float(mk["cost"]))
+    return d, u
+
+
+def quantity_exists(name, d, u):
+    """does the quantity the feature is DEFINED as exist for this derivative / underlier (read off the instruments themselves,
+    not through the feature)?  If not, an error of the hedger is the legitimate outcome."""
+    try:
+        if name in ("moneyness", "log_moneyness"):
+            d.moneyness(0)
+        elif name in ("max_moneyness", "max_log_moneyness"):
+            d.max_moneyness(0)
+        elif name == "time_to_maturity":
+            d.time_to_maturity(0)
+        elif name == "volatility":
+            u.volatility
+        elif name == "variance":
+            u.variance
+        elif name in ("spot", "log_spot"):
+            d.spot
+        else:
+            u.spot
+        return True
+    except (AttributeError, ValueError):
+        return False
+
+
+def features_x_underliers(ctx, torch, g, reqs, metas):
+    from pfhedge.nn import Hedger
+    pool = [nm for nm in BASE_FEATURES if nm != "empty"]
+    for rep in range(2 if ctx.tier == "quick" else 10):
+        for ukind in X_UNDERLIERS:
+            for main in pool:
+                mk = gen_market_x(g, ukind)
+                T, N = mk["T"], mk["N"]
+                d, u = build_x(torch, mk)
+                thr = g.choice([x for p in mk["spot"] for x in p])
+                names = [main] + ([g.choice(pool)] if g.chance(0.35) else [])
+                wrapped = g.chance(0.25)          # the features are read through a ModuleOutput
+                exists = all(quantity_exists(nm, d, u) for nm in names)
+                t = g.randint(0, T - 2)
+                m2 = perturb(g, mk, t)
+                for stepwise in (False, True):
+                    H = g.choice([1, 1, 2])
+                    if wrapped:
+                        sub_ms = dict(kind="linear", w=[[g.choice(NZ_W) for _ in names] for _ in range(2)], b=[g.choice([F(0), F(1, 2)]) for _ in range(2)],
+                                      relu=g.chance(0.3))
+                        feats = [feature_obj(torch, "module_output", mk, thr, (model_obj(torch, sub_ms), names))]
+                        fj = [feature_json("module_output", thr, (model_json(sub_ms), names))]
+                        width = 2
+                    else:
+                        feats = [feature_obj(torch, nm, mk, thr) for nm in names]
+                        fj = [feature_json(nm, thr) for nm in names]
+                        width = len(names)
+                    if stepwise:
+                        feats.append("prev_hedge")
+                        fj.append(["prev_hedge"])
+                        width += H
+                    ms = dict(kind="linear", w=[[g.choice(NZ_W) for _ in range(width)] for _ in range(H)], b=[g.choice([F(0), F(1, 2), F(-1, 4)]) for _ in range(H)],
+                              relu=g.chance(0.25))
+                    hedger = Hedger(model_obj(torch, ms), feats)
+                    hedge = [u] + extra_hedges(torch, g, mk, H - 1)
+                    case = {"features_x_underliers": True, "features": names, "module_output": wrapped, "stepwise": stepwise, "H": H, "thr": rat_str(thr),
+                            "model": model_json(ms), "option": mk["option"], "primary": ukind, "T": T, "N": N, "spot": enc_rat(mk["spot"]),
+                            "vol": enc_rat(mk["vol"]), "var": enc_rat(mk["var"]), "strike": rat_str(mk["strike"]), "dt": rat_str(mk["dt"]), "call": mk["call"],
+                            "t": t}
+                    with torch.no_grad():
+                        inject_x(torch, u, mk)
+                        st, out, mut = call_impl(hedger.compute_hedge, d, hedge, watch=[("derivative", d)])
+                        inject_x(torch, u, m2)
+                        st2, out2, _ = call_impl(hedger.compute_hedge, d, hedge)
+                        inject_x(torch, u, mk)
+                    if mut:
+                        ctx.mutated("compute_hedge", mut, case)
+                    ctx.stats[f"x_underlier={ukind}"] += 1
+                    ctx.stats[f"x_derivative={mk['option']}"] += 1
+                    if st != "ok" and st2 != "ok" and not exists:
+                        # the feature is not defined for this derivative / underlier: no hedge, nothing to anticipate
+                        ctx.case(case, False, tag="features_x_underliers:undefined")
+                        continue
+                    ctx.case(case, True, tag="features_x_underliers")
+                    ctx.traces += 1
+                    if st != "ok" or st2 != "ok":
+                        ctx.fail("compute_hedge raised for a feature whose quantity exists for this derivative and underlier, or raised on only one of two "
+                                 "markets that differ after step t only", case, key="compute_hedge:feature-x-underlier:error",
+                                 detail={"base": str(out)[:120] if st != "ok" else "ok", "perturbed": str(out2)[:120] if st2 != "ok" else "ok"})
+                        continue
+                    if tuple(out.shape) != (N, H, T) or tuple(out2.shape) != (N, H, T):
+                        ctx.fail("compute_hedge has the wrong shape", case, key="compute_hedge:feature-x-underlier:shape", detail=list(out.shape))
+                        continue
+                    base, pert = out.tolist(), out2.tolist()
+                    if any(base[p][hh][T - 1] != base[p][hh][T - 2] and base[p][hh][T - 1] == base[p][hh][T - 1] for p in range(N) for hh in range(H)):
+                        ctx.fail("the position at the final time index differs from the one held over the last step", case,
+                                 key="compute_hedge:feature-x-underlier:last-column", detail={"hedge": base})
+                    for p in range(N):
+                        bad = [hh for hh in range(H) if not all(x == y or (x != x and y != y) for x, y in zip(base[p][hh][: t + 1], pert[p][hh][: t + 1]))]
+                        if bad:
+                            hh = bad[0]
+                            ctx.fail(f"hedge ratios for steps 0..t change when only prices/variances after step t are changed (look-ahead): features "
+                                     f"{names} on {ukind} / {mk['option']}" + ("" if exists else " (a pair for which the unchanged library raises)"),
+                                     case | {"perturbed_spot": enc_rat(m2["spot"]), "perturbed_vol": enc_rat(m2["vol"]), "perturbed_var": enc_rat(m2["var"])},
+                                     key="compute_hedge:feature-x-underlier:lookahead",
+                                     detail={"before": base[p][hh][: t + 1], "after": pert[p][hh][: t + 1], "path": p})
+                            break
+                    if exists:     # the model knows the quantities of a market, not their absence: only defined pairs are sent
+                        tol = any(nm in LOG_FEATURES or nm == "time_to_maturity" for nm in names)
+                        for p in range(N):
+                            reqs.append({"op": "hedge", "market": market_json(mk, p), "features": fj, "model": model_json(ms), "n": T, "h": H})
+                            metas.append((case | {"kind": "x", "path": p}, tol, [[base[p][hh][tt] for hh in range(H)] for tt in range(T)]))
 
 
 def check(ctx):
@@ -209,6 +386,8 @@ def check(ctx):
         elif not torch.equal(oB[..., : t + 1], oB2[..., : t + 1]):
             ctx.fail("hedge ratios for steps 0..t change when only prices/variances after step t are changed (look-ahead through a shared feature)",
                      case | {"t": t}, key="compute_hedge:lookahead", detail={"before": oB[..., : t + 1].tolist(), "after": oB2[..., : t + 1].tolist()})
+    # ---------------- every built-in feature x every underlier type (incl. rates and user-defined primaries) x every derivative type
+    features_x_underliers(ctx, torch, g, reqs, metas)
     try:
         outs = ctx.driver(reqs)
     except DriverBroken as e:
